@@ -1034,6 +1034,12 @@ def handle : List String → String
         let model := compile Cfg.now src
         let spec := compile Cfg.spec src
         let specSame := resEqApprox model spec
+        let cssSame := resEqApprox model (compile ⟨true, true, false⟩ src)
+        let strictR := compile ⟨true, false, true⟩ src
+        let strictS := (if resEqApprox model strictR then "same" else match strictR with
+          | .ok _ => "ok"
+          | .err e => errStr e
+          | .panic => "panic")
         let modelS := outStr model
         match parseToks toks with
         | Option.none => s!"ok impl-unparsed specsame={boolStr specSame} model= {modelS}"
@@ -1053,7 +1059,7 @@ def handle : List String → String
             | .ok _ => "ok"
             | .err e => errStr e
             | .panic => "panic"
-          s!"ok tie={boolStr tie} val={val} defined={definedCount envs src} reprint={boolStr reprint} specsame={boolStr specSame} spec={specS} model= {modelS} impl= {treeStr it}"
+          s!"ok tie={boolStr tie} val={val} defined={definedCount envs src} reprint={boolStr reprint} specsame={boolStr specSame} spec={specS} css={boolStr cssSame} strict={strictS} model= {modelS} impl= {treeStr it}"
       | _, _, _ => "bad-op"
     | _ => "bad-op"
   | _ => "bad-op"
